@@ -167,6 +167,29 @@ func solveOne(ob *Obligation, prelude string, gax []string, opts solveOpts) {
 		if (st == "sat" || st == "unsat") && !opts.all {
 			final = st
 			ob.Solver = first.name
+		} else if st == "sat" || st == "unsat" {
+			// thorough: the other two solvers get a short time to agree or disagree (a disagreement is a conflict;
+			// their silence is not)
+			final = st
+			ob.Solver = first.name
+			ch := make(chan res, len(solvers))
+			n := 0
+			for _, sp := range solvers[1:] {
+				n++
+				go func(sp solverSpec) {
+					st, out, dur := runSolver(sp, file, 8)
+					ch <- res{sp.name, st, out, dur}
+				}(sp)
+			}
+			for k := 0; k < n; k++ {
+				r := <-ch
+				ob.Raw[r.name] = fmt.Sprintf("%s (%.2fs) %s", r.st, r.dur, trunc(strings.TrimSpace(r.out), 300))
+				if (r.st == "sat" || r.st == "unsat") && r.st != final {
+					final = "conflict"
+				} else if r.st == final {
+					ob.Agree++
+				}
+			}
 		} else {
 			ch := make(chan res, len(solvers))
 			for _, sp := range solvers {
